@@ -189,6 +189,11 @@ fn main() {
             use std::os::unix::process::ExitStatusExt;
             let st = std::process::Command::new(std::env::current_exe().expect("exe")).arg("replay").arg(&args[2]).arg("--inproc").status();
             match st {
+                Ok(s) if s.code() == Some(5) => {
+                    println!("violation class=call_never_returns detail=a simulated client kept computing for 15 s without reaching any scheduling point");
+                    println!("VIOLATION property=C12 replay=(this file)");
+                    1
+                }
                 Ok(s) if s.signal().is_some() => {
                     println!("violation class=crash_in_code_under_test detail=the process replaying this world is killed by signal {}", s.signal().unwrap());
                     println!("VIOLATION property=(see file) replay=(this file)");
